@@ -91,6 +91,13 @@ def make_case(rng):
         P['diff'] = rng.choice([100000, 0, 5000])
     case = {'refs': refs, 'queries': queries, 'qclass': qclass, 'params': P, 'mode': rng.choice(gen.MODES),
             'flavour': 'degenerate', 'ordinary': ordinary}
+    y = rng.random()
+    if y < 0.04:
+        case['extra_argv'] = ['-qId', '987654']           # selects no molecule at all: a header-only XMAP is expected
+        case['ordinary'] = []
+    elif y < 0.07:
+        case['extra_argv'] = ['-rId', '987654']
+        case['ordinary'] = []
     if rng.random() < 0.2 and not ordinary:
         case['ref_text'], v1 = text.vary_syntax(text.cmap_text([tuple(m) for m in refs]), rng)
         case['query_text'], v2 = text.vary_syntax(text.cmap_text([tuple(m) for m in queries]), rng)
